@@ -49,6 +49,8 @@ func main() {
 			runNodePeers(*out, *seed, *tier)
 		case "nodeapi":
 			runNodeAPI(*out, *seed, *tier)
+		case "transport":
+			runTransport(*out, *seed, *tier)
 		case "nodeterminal":
 			runNodeTerminal(*out, *seed, *tier)
 		case "fsmhist":
